@@ -380,6 +380,41 @@ theorem handleReadResource_wf (reg : Registry) (h : reg.Conforming) (req : Req) 
   cases cs with
   | none => simp at this
   | some l => exact wf_readResource l
+/-! ## the request as the spec reads it vs. as the struct decoder binds it -/
+
+def plainLower (c : Nat) : Prop := 97 ≤ c ∧ c ≤ 122 ∧ c ≠ 107 ∧ c ≠ 115
+
+theorem foldChar_iff (x c : Nat) (hc : plainLower c) :
+    (foldChar x = foldChar c) ↔ (lowerChar x = c) := by
+  unfold plainLower at hc
+  unfold foldChar lowerChar
+  split <;> split <;> (try split) <;> (try split) <;> (try split) <;> constructor <;> intro h <;> omega
+
+theorem foldKey_iff (k n : Text) (hn : ∀ c ∈ n, plainLower c) : (foldKey k = foldKey n) ↔ (toLower k = n) := by
+  induction k generalizing n with
+  | nil => cases n <;> simp [foldKey, toLower]
+  | cons x xs ih =>
+    cases n with
+    | nil => simp [foldKey, toLower]
+    | cons c cs =>
+      have h1 := foldChar_iff x c (hn c (by simp))
+      have h2 := ih cs (fun d hd => hn d (by simp [hd]))
+      simp only [foldKey, toLower, List.map_cons, List.cons.injEq] at h2 ⊢
+      rw [h1, h2]
+
+theorem fold_id (k : Text) : (foldKey k == foldKey t!"id") = (toLower k == t!"id") := by
+  have := foldKey_iff k t!"id" (by intro c hc; simp at hc; rcases hc with rfl | rfl <;> simp [plainLower])
+  rw [Bool.eq_iff_iff, beq_iff_eq, beq_iff_eq]; exact this
+
+theorem fold_method (k : Text) : (foldKey k == foldKey t!"method") = (toLower k == t!"method") := by
+  have := foldKey_iff k t!"method" (by intro c hc; simp at hc; rcases hc with rfl | rfl | rfl | rfl | rfl | rfl <;> simp [plainLower])
+  rw [Bool.eq_iff_iff, beq_iff_eq, beq_iff_eq]; exact this
+
+theorem fieldVals_id (o : Obj) : fieldVals o t!"id" = (membersLoose o t!"id").map (·.2) := by
+  simp [fieldVals, membersLoose, fold_id]
+
+theorem fieldVals_method (o : Obj) : fieldVals o t!"method" = (membersLoose o t!"method").map (·.2) := by
+  simp [fieldVals, membersLoose, fold_method]
 /-! ## concrete instances (non-vacuity examples and counterexamples of the property files) -/
 
 def objectSchema : Json := .obj [(t!"type", .str t!"object")]
